@@ -9,6 +9,8 @@ import (
 	"context"
 	"errors"
 	"io"
+	"math/rand"
+	"sort"
 	"sync"
 
 	ocispec "github.com/opencontainers/image-spec/specs-go/v1"
@@ -35,6 +37,9 @@ type env struct {
 	mu     sync.Mutex
 	faults []Fault
 	fired  int
+	// soft counts armed faults that need not make the call fail: a source stream that carries bytes beyond the described
+	// size is an error only to a destination that reads that far (a size-limited store takes the first Size bytes)
+	soft int
 	// cancelAfter, when set, is called by the next wrapped operation after it
 	// performed its effect successfully (cancellation "during" an operation
 	// that does not consult the context).
@@ -78,7 +83,11 @@ func (e *env) take(op string, node int) (Fault, bool) {
 	for i, f := range e.faults {
 		if f.Op == op && f.Node == node {
 			e.faults = append(e.faults[:i], e.faults[i+1:]...)
-			e.fired++
+			if f.Phase == "long" {
+				e.soft++
+			} else {
+				e.fired++
+			}
 			return f, true
 		}
 	}
@@ -112,6 +121,7 @@ type srcW struct {
 		content.PredecessorFinder
 		content.Resolver
 	}
+	order int // Scenario.PredOrder
 }
 
 func (w *srcW) Fetch(ctx context.Context, d ocispec.Descriptor) (io.ReadCloser, error) {
@@ -188,6 +198,16 @@ func (w *srcW) Predecessors(ctx context.Context, d ocispec.Descriptor) ([]ocispe
 		return nil, ErrInjected
 	}
 	ps, err := w.und.Predecessors(ctx, d)
+	if w.order != 0 && len(ps) > 1 {
+		// a fixed listing order for this node: by node number, then permuted
+		sort.SliceStable(ps, func(i, j int) bool { return w.e.g.NodeOf(ps[i]) < w.e.g.NodeOf(ps[j]) })
+		perm := rand.New(rand.NewSource(int64(w.order)*1000003 + int64(n))).Perm(len(ps))
+		out := make([]ocispec.Descriptor, len(ps))
+		for i, j := range perm {
+			out[i] = ps[j]
+		}
+		ps = out
+	}
 	var res []int
 	for _, p := range ps {
 		res = append(res, w.e.g.NodeOf(p))
